@@ -360,3 +360,12 @@ mod tests {
         assert_eq!(worker.num_tokens(), 0);
     }
 }
+
+#[cfg(vibrato_verif)]
+impl Tokenizer {
+    /// Takes the dictionary back out of the tokenizer (verification hook), so that a
+    /// harness can observe a dictionary and then keep applying dictionary operations to it.
+    pub fn verif_into_dictionary(self) -> Dictionary {
+        self.dict
+    }
+}
